@@ -29,13 +29,13 @@ LABELS = ["zones.partition", "zones.bracket_transition", "zones.permutation_inva
 
 
 def bounds(tier):
-    return {"rows": "2..%d, every fracture-flag pattern with at least two fractures" % (3 if tier == "quick" else 4)}
+    return {"rows": "2..%d, every fracture-flag pattern with at least two fractures" % (3 if tier == "quick" else 5)}
 
 
 def cases(tier):
     q = tier == "quick"
     out = []
-    for m in range(2, (3 if q else 4) + 1):
+    for m in range(2, (3 if q else 5) + 1):
         for flags in itertools.product((True, False), repeat=m):
             if sum(flags) < 2:
                 continue
